@@ -8,7 +8,7 @@ namespace Model
 
 inductive Mode where
   | strict | lenient | silent
-  deriving Repr, BEq, DecidableEq, Inhabited
+  deriving Repr, DecidableEq, Inhabited
 
 /-- A collected validation error: type (member name of `MafValidationErrorType`)
     and reported line number.  `origin` is a ghost field (not present in the
@@ -18,13 +18,13 @@ structure VErr where
   tpe : String
   line : Option Nat
   origin : Option Nat := none
-  deriving Repr, BEq, DecidableEq, Inhabited
+  deriving Repr, DecidableEq, Inhabited
 
 /-- One record on the `maflib` logger tree (only warnings are emitted). -/
 structure LogRec where
   tpe : String
   line : Option Nat
-  deriving Repr, BEq, DecidableEq, Inhabited
+  deriving Repr, DecidableEq, Inhabited
 
 /-- `process_validation_errors(errors, stringency)`: Silent does nothing, Lenient
     logs one warning per error, Strict raises the first error. -/
